@@ -37,6 +37,13 @@ def header_sig(ev):
         return "header:trace:eof"
     mut = ev.get("mut", "?")
     rest = [o for o in ev.get("opts", []) if o != "SKIP_POW"]
+    if ev.get("k") == "Wire":
+        # header:wire:<wrapping>:<what is wrong with the header>:<real verdict>, e.g.
+        # header:wire:CompactBlock:future_time:accept
+        future = ev.get("tsc") in ("limit_plus", "far")
+        what = ("future_time" if future else "ts_" + str(ev.get("tsc"))) if mut == "valid" else \
+            (mut + ("+future_time" if future else ""))
+        return "header:wire:%s:%s:%s%s" % (ev.get("w"), what, ev.get("verdict"), (":opts=" + "+".join(rest)) if rest else "")
     return "header:%s:%s:%s%s%s" % (ev.get("k"), mut, ev.get("verdict"), ":skip_pow" if ev.get("skip") else "",
                                     (":opts=" + "+".join(rest)) if rest else "")
 
@@ -47,13 +54,29 @@ def diff_sig(ev):
     return "difficulty:trace:%s:%s:len%s" % (ev.get("ct"), ev.get("src", "?"), "<61" if len(ev.get("w", [])) < 61 else ">=61")
 
 
-def run_chain(wd, name, seed, length, sync=1):
+def wire_plans(wd):
+    """Direction A for the wire-entry layer: TLC (MC_Header_wire) checks WireDecided / WireEntryDecided on short
+    chains and emits the plans wrapping x timestamp class x (valid | other mutation) the harness executes."""
+    r = vlib.tlc("mc/MC_Header", "mc/MC_Header_wire", workers=1, coverage=False, timeout=1500)
+    if r.invariant_violated:
+        print(r.out[-3000:])
+        raise ToolError("Header.tla invariant %s violated inside the model (MC_Header_wire)" % r.invariant_violated)
+    vlib.tlc_ok(r, "MC_Header_wire")
+    plans = sorted((json.loads(x) for x in r.printed("WPLAN")), key=lambda p_: (p_["mut"], p_["w"], p_["tsc"]))
+    if len(plans) < 4 * 6 * 2 or len({p_["w"] for p_ in plans}) != 4 or len({p_["tsc"] for p_ in plans}) != 6:
+        raise ToolError("MC_Header_wire emitted %d plans" % len(plans))
+    pp = os.path.join(wd, "wplans.ndjson")
+    vlib.write_ndjson(pp, plans)
+    return pp, plans, r
+
+
+def run_chain(wd, name, seed, length, sync=1, wplans=None):
     d = os.path.join(wd, name)
     os.makedirs(d, exist_ok=True)
     tp = os.path.join(d, "trace.ndjson")
     dp = os.path.join(d, "dtrace.ndjson")
     p = vlib.harness(["header", "chain", "--dir", os.path.join(d, "chains"), "--out", tp, "--diffout", dp,
-                      "--seed", seed, "--len", length, "--sync", sync], timeout=1500)
+                      "--seed", seed, "--len", length, "--sync", sync] + (["--wplans", wplans] if wplans else []), timeout=1500)
     info = json.loads(p.stdout.strip().splitlines()[-1])
     info["seed"], info["len"] = seed, length
     shutil.rmtree(os.path.join(d, "chains"), ignore_errors=True)
@@ -117,7 +140,7 @@ def run(tier, replay):
         if kind == "dcase":
             replay_dcases(rep, wd, [case["case"]], "replay")
         elif kind == "chain":
-            tp, dp, info = run_chain(wd, "replay", case["seed"], case["len"])
+            tp, dp, info = run_chain(wd, "replay", case["seed"], case["len"], wplans=wire_plans(wd)[0])
             check_chain_trace(rep, tp, case["seed"], case["len"], "replay")
             check_body_sync(rep, info)
             check_diff_trace(rep, dp, {"kind": "chain", "seed": case["seed"], "len": case["len"]}, "replay")
@@ -134,13 +157,14 @@ def run(tier, replay):
     length = 30 if thorough else 16
     nrand = 3000 if thorough else 600
     recorded = {}
+    wpp, wplans, wr = wire_plans(wd)
 
     def record():
         try:
-            recorded["chain"] = run_chain(wd, "chain0", seed, length)
+            recorded["chain"] = run_chain(wd, "chain0", seed, length, wplans=wpp)
             if thorough:
                 recorded["chain1"] = run_chain(wd, "chain1", seed + 1000003, 70, sync=1)
-                recorded["chain2"] = run_chain(wd, "chain2", seed + 2000003, 16, sync=1)
+                recorded["chain2"] = run_chain(wd, "chain2", seed + 2000003, 16, sync=1, wplans=wpp)
             dp = os.path.join(wd, "drand.ndjson")
             p = vlib.harness(["header", "diff-record", "--out", dp, "--seed", seed, "--n", nrand])
             recorded["drand"] = (dp, json.loads(p.stdout.strip().splitlines()[-1]))
@@ -151,9 +175,9 @@ def run(tier, replay):
     th.start()
 
     # ---- (M) Header.tla: all honest chains x every single-field mutation ----
-    states = trans = 0
+    states, trans = wr.distinct, wr.generated
     hcfgs = ["mc/MC_Header_thorough", "mc/MC_Header_thorough3"] if thorough else ["mc/MC_Header", "mc/MC_Header_short"]
-    hstats = {}
+    hstats = {"mc/MC_Header_wire": {"states": wr.distinct, "depth": wr.depth, "wall_s": round(wr.wall, 1), "plans": len(wplans)}}
     for cfg in hcfgs:
         r = vlib.tlc("mc/MC_Header", cfg, workers=4, coverage=False, timeout=3000)
         if r.invariant_violated:
@@ -231,11 +255,20 @@ def run(tier, replay):
                 or main["forged_by_path"].get(p_, 0) == 0]
         if thin:
             raise ToolError("scenario did not drive %s with accepted, refused and forged-proof headers: %s" % (thin, byo))
+        # every wrapping must have delivered an otherwise valid header that was taken (time-stamped the
+        # node's clock) and one that was refused (far beyond the limit); the classes next to the limit
+        # are run too but not required here (they depend on the wall clock staying within the margin)
+        wv = main["wire_valid_accept_reject"]
+        thinw = [w_ for w_ in ("Header", "Headers", "Block", "CompactBlock")
+                 if wv.get(w_ + ":now", [0, 0])[0] == 0 or wv.get(w_ + ":far", [0, 0])[1] == 0]
+        if thinw or main["wire_plans_run"] < len(wplans):
+            raise ToolError("wire plans not exercised for %s: %s run, %s" % (thinw, main["wire_plans_run"], wv))
         if byo["Block:SYNC"][2] == 0 or main["body_synced"] < length:
             raise ToolError("body sync never went through the orphan pool: %s" % byo["Block:SYNC"])
 
     sample_events = vlib.read_ndjson(recorded["chain"][0])
-    sample = [e for e in sample_events if e.get("mut") in ("pow_low", "ts_equal")][:2]
+    sample = [e for e in sample_events if e.get("mut") in ("pow_low", "ts_equal")][:2] + \
+        [e for e in sample_events if e.get("k") == "Wire" and e.get("w") == "CompactBlock" and e.get("tsc") == "far"][:1]
     rep.coverage = {
         "states": states, "transitions": trans,
         "traces_validated_against_impl": ntr + dinfo["compared"],
@@ -247,6 +280,9 @@ def run(tier, replay):
         "header_trace": {k: {kk: infos[k][kk] for kk in ("events", "height", "delivered", "accepted", "max_target",
                                                           "pow_exact_found", "pow_low_found", "sync_chunks", "forged_found",
                                                           "body_synced", "body_head_ok")} for k in chains},
+        "wire": {"plans_generated_by_tlc": len(wplans), "plans_executed": main["wire_plans_run"], "rebuilt_for_clock": main["wire_retries"],
+                 "valid_header_by_wrapping_and_timestamp_class_accept_reject": main["wire_valid_accept_reject"],
+                 "limit_plus_margin_s": 20},
         "deliveries_by_entry_point_and_options_accept_reject_orphan": main["by_options_accept_reject_orphan"],
         "forged_proof_deliveries_by_path": main["forged_by_path"],
         "verdicts_by_mutation_accept_reject": by,
@@ -260,6 +296,11 @@ def run(tier, replay):
         "options: every entry point is driven with NONE / SYNC / MINE (what servers/src passes) and SKIP_POW combinations; "
         "Header.tla gives SYNC and MINE no meaning (MC_Header!OptionsIrrelevant), so any dependence of the real verdict on them "
         "is a mismatch; the orphan pool is observed through the Orphan result and the final chain only",
+        "wire layer: the four wrappings are read with the real Untrusted* readers (ser::deserialize, ProtocolVersion::local) and "
+        "handed to the pipeline call of servers/src/common/adapters.rs re-enacted by the harness (the adapter itself, the p2p codec "
+        "framing - C19 - and compact blocks with kernel ids are not run); the future-time limit is relative to the wall clock: the "
+        "reader's clock is bracketed by whole-second readings before/after the read and either bracket end may decide; accept-side "
+        "classes are built at limit-1s and limit exactly, the reject-side class next to the limit 20 s beyond it (and 2 h beyond)",
         "real-PoW chains run under AutomatedTesting only (cuckatoo, edge_bits 10, proof size 8); Mainnet/Testnet/UserTesting "
         "constants are bound through the pure function next_difficulty and the model only",
         "next_difficulty outside its domain (empty window; fewer than 2 headers for WTEMA) panics and is left free: no header "
